@@ -8,6 +8,7 @@ import qlib
 from layout import Folder, Unfoldable, flatten, canon, mark_top_refs, norm_type
 from qlib import (AnalysisBroken, strip, isnode, walk, is_call, var_ref, const_val, call_obj, field_name, short, is_this_field,
                   norm_cmp)
+from rules.c02 import cmp_sides
 from rules.common import cpos, npos, need_some, core_and_neg, tnode, other, in_subtree, branches_on_call
 
 TECHNIQUE = "static analysis: symbolic byte-layout summaries of sibling codec functions compared by value flow, plus CFG path rules"
@@ -25,7 +26,8 @@ EXPLANATION = ("Codec agreement. R1 (triplet layout): for every Codec<T> instant
                "sides and present iff has_dynamic_log_level; flush and logger-removal records agree with their decoders. R4: the size "
                "reserved is the size committed (same variable, not redefined in between). R5 (deep copy): no encode copies the address "
                "of the argument's storage except the two documented by-reference codecs; the decoded argument store is used only "
-               "inside the decode function's call tree (formatted before the producer may overwrite the bytes).")
+               "inside the decode function's call tree (formatted before the producer may overwrite the bytes)."
+               " R6g-j: owned copies of class-type arguments stay alive in a linked list while the format slots refer to them; the configured sanitisation is applied to every statement it is configured for. R8c: the sanitiser's two passes follow the predicate with the same polarity. R10 (= C12.R9): runtime-metadata statements keep exactly their message. R11: InlinedVector (the size cache): union arm by capacity, index below size, growth copies all elements. R12: C-string / char-array encoders write the terminator the decoder's strnlen relies on.")
 NOT_DECIDED = ("Equality of the formatted text with synchronous formatting for every value (NaN, locale, extremes); the hex-escape "
                "arithmetic of the non-printable sanitiser; strings longer than 4 GiB; alignment arithmetic of the placement codec "
                "beyond constant agreement.")
@@ -88,6 +90,8 @@ def run(ctx):
     dynamic_level_byte(ctx, core)
     decode_routing(ctx, core)
     formats_through_fmt(ctx, core)
+    inlined_vector(ctx, ctx.facts("effects.cpp", "A", ()))
+    c_string_terminators(ctx, ctx.facts("effects.cpp", "A", ()))
     # a statement with run-time source metadata keeps exactly its message text (= C12.R9: cut at the separators measured on the text
     # as formatted, shortened before it is sanitised)
     from rules import c12
@@ -579,6 +583,52 @@ def string_flag(ctx, eff, core):
         ctx.ob("C04.R6a", "DynamicFormatArgStore::push_back<%s>:marks-string" % t[:60], ok,
                "storing a decoded %s argument marks the statement as containing string-like data (the sanitiser is skipped otherwise)" % t[:60], fn=f)
     ctx.floor("C04.R6a", "string-like push_back instantiations", n, 2)
+    # R6g: arguments that do not fit into a format-argument slot (containers, user types) are kept in a list of owned copies for as long
+    # as the slots refer to them: push() links the new node in front of the whole existing list and hands out the copy inside the node;
+    # an instantiation that stores an owned copy passes *that copy* to the slot, every other one passes its argument
+    k = 0
+    for f in eff.fn("quill::detail::DynamicArgList::push", "A")[:8]:
+        k += 1
+        g = f.g
+        inits = f.var_inits()
+        nn = [v for v, i in inits.items() if isnode(i) and any(x["k"] == "CXXNewExpr" for x in walk(i))]
+        link = [x for x in f.walk() if x["k"] == "CXXOperatorCallExpr" and short(x.get("callee") or "").endswith("operator=") and len(x["args"]) == 2 and
+                any(y["k"] == "MemberExpr" and y.get("mname") == "next" for y in walk(x["args"][0])) and any(is_this_field(y, "_head") for y in walk(x["args"][1]))]
+        sethead = [x for x in f.walk() if x["k"] == "CXXOperatorCallExpr" and short(x.get("callee") or "").endswith("operator=") and len(x["args"]) == 2 and
+                   is_this_field(strip(x["args"][0], casts=True), "_head") and any(var_ref(y) in nn for y in walk(x["args"][1]))]
+        lp_, hp_ = npos(f, link), npos(f, sethead)
+        rets = [g.node_ast(r) for r in g.return_nodes()]
+        valv = [v for v, i in inits.items() if isnode(i) and any(y["k"] == "MemberExpr" and y.get("mname") == "value" and var_ref(strip(y.get("base"), casts=True)) in nn or
+                                                               (y["k"] == "MemberExpr" and y.get("mname") == "value") for y in walk(i))]
+        ok = len(nn) == 1 and len(link) == 1 and len(sethead) == 1 and all(g.dominates(lp_, p) for p in hp_) and \
+            not g.exists_path([g.entry_node], [g.exit_node], avoid_nodes=hp_) and bool(rets) and all(var_ref(strip(r.get("val"), casts=True)) in valv for r in rets)
+        if k <= 4:
+            ctx.ob("C04.R6g", "DynamicArgList::push<%s>:keeps-the-list" % (f.rec.get("targs") or ["?"])[0][:50], ok,
+                   "the new node takes over the existing list as its tail before it becomes the head (earlier copies stay alive while the "
+                   "slots refer to them) and the reference returned is the copy inside the node", fn=f)
+    ctx.floor("C04.R6g", "instantiations of DynamicArgList::push", k, 2)
+    nocopy = re.compile(r"^(const )?(bool|char|signed char|unsigned char|short|unsigned short|int|unsigned int|long|unsigned long|long long|unsigned long long|"
+                        r"float|double|long double|void \*|const void \*|(std|fmtquill)::basic_string_view<char.*>|fmtquill::(v\d+::)?basic_string_view<char>)$")
+    miss = []
+    for f in eff.fn("quill::DynamicFormatArgStore::push_back", "A"):
+        t = (f.rec.get("targs") or ["?"])[0]
+        is_enum = any(n_ == t for (n_, c_) in eff.enums)
+        if not nocopy.match(t) and not is_enum and not f.calls(r"DynamicArgList::push<"):
+            miss.append(t[:60])
+    ctx.ob("C04.R6h", "DynamicFormatArgStore::push_back:class-type-arguments-are-copied", not miss,
+           "every instantiation for a container / string / user type (anything but arithmetic, pointer and view types) stores an owned copy: "
+           "the decoded object is a local of the decoder and is gone when the message is formatted (not copied: %s)" % (miss or "none"))
+    for f in eff.fn("quill::DynamicFormatArgStore::push_back", "A"):
+        pu = f.calls(r"DynamicArgList::push<")
+        em = f.calls(r"DynamicFormatArgStore::emplace_arg<")
+        if not pu:
+            continue
+        a0 = f.rec["params"][0]["did"]
+        ok = len(em) == 1 and any(x is pu[0] for x in walk(em[0]["args"][0])) and any(var_ref(y) == a0 for y in walk(pu[0]))
+        k += 1
+        if k <= 12:
+            ctx.ob("C04.R6g", "DynamicFormatArgStore::push_back<%s>:slot-refers-to-the-owned-copy" % (f.rec.get("targs") or ["?"])[0][:50], ok,
+                   "an instantiation that makes an owned copy hands the copy (the result of push()), not its short-lived argument, to the slot", fn=f)
     c = eff.need("quill::DynamicFormatArgStore::clear", "A")[0]
     ok = any(x["k"] == "BinaryOperator" and x["op"] == "=" and is_this_field(x["lhs"], "_has_string_related_type") and const_val(x["rhs"]) == 0 for x in c.walk()) and \
         any(is_call(x, r"std::vector<.*>::clear$") and is_this_field(call_obj(x), "_data") for x in c.walk())
@@ -606,6 +656,53 @@ def string_flag(ctx, eff, core):
            "the reused transit event's message buffer is cleared before the statement is formatted into it", fn=f)
     ctx.ob("C04.R6d", "_populate_formatted_log_message:sanitise-after-format", ok,
            "the sanitiser runs on the formatted message, after formatting, for statements that carry string-like data", fn=f)
+
+    def option_edges(fn):
+        out = []
+        for bid, b in fn.g.blocks.items():
+            c = fn.g.term_cond(bid)
+            if c is None:
+                continue
+            core, neg = core_and_neg(c)
+            core = strip(core, casts=True)
+            if is_call(core, r"std::function<bool \(char\)>::operator bool$") and \
+                    any(x["k"] == "MemberExpr" and x.get("mname") == "check_printable_char" for x in walk(call_obj(core))):
+                out.append((bid, "F" if neg else "T"))
+        return out
+    # R6i: the configured sanitisation is applied to every statement it is configured for: an ordinary statement with string-like data
+    # right after formatting; a statement with run-time source metadata — whose text still carries the separators at that point — after
+    # its parts were cut (_apply_runtime_metadata), whatever its arguments
+    oe = option_edges(f)
+    rt = []
+    for bid, b in g.blocks.items():
+        c = g.term_cond(bid)
+        nc = norm_cmp(c) if c is not None else None
+        if nc and nc[0] in ("==", "!=") and any(is_call(x, r"MacroMetadata::event$") for x in walk(c)) and \
+                any(x["k"] == "DeclRefExpr" and x.get("dk") == "EnumConstant" and x.get("name", "").endswith("::LogWithRuntimeMetadata") for x in walk(c)):
+            rt.append((bid, "T" if nc[0] == "!=" else "F"))       # label of 'not a runtime-metadata statement'
+    all_true = oe + [(b, t) for (b, t, c) in hb] + rt
+    ok_i = bool(oe) and bool(hb) and bool(rt) and bool(san)
+    if ok_i:
+        ok_i = all(g.exists_path([tnode(g, b)], san) for (b, t) in all_true) and \
+            not g.exists_path([g.entry_node], san, avoid_edges=oe) and not g.exists_path([g.entry_node], san, avoid_edges=rt)
+        # from the point where all three held: no way around
+        for (b, t) in all_true:
+            nxt = [y for (y, l2) in g.succ.get(tnode(g, b), ()) if l2 == t]
+            others = [tnode(g, b2) for (b2, t2) in all_true if b2 != b]
+            if not any(g.exists_path(nxt, [o]) for o in others):        # this is the last test on the chain
+                ok_i = ok_i and not g.exists_path(nxt, [g.exit_node], avoid_nodes=san + npos(f, [x for x in f.walk() if x["k"] == "CXXThrowExpr"]) +
+                                                  [q for t_ in [x for x in f.walk() if x["k"] == "CXXTryStmt"] for h in t_.get("handlers") or [] for q in (g.positions(h.get("body")) or [])])
+    ctx.ob("C04.R6i", "_populate_formatted_log_message:sanitised-whenever-configured", ok_i,
+           "the sanitiser is skipped only when the option is off, the statement has no string-like data, or it is a runtime-metadata "
+           "statement (sanitised later); with all three tests passed it runs on every path", fn=f)
+    am = core.need("quill::detail::BackendWorker::_apply_runtime_metadata", "A")[0]
+    ag = am.g
+    asan = npos(am, [c for c in am.calls(r"::sanitize_non_printable_chars\b")])
+    aoe = option_edges(am)
+    ok_j = bool(asan) and bool(aoe) and not ag.exists_path([ag.entry_node], asan, avoid_edges=aoe) and \
+        all(not ag.exists_path([y for (y, l2) in ag.succ.get(tnode(ag, b), ()) if l2 == t], [ag.exit_node], avoid_nodes=asan) for (b, t) in aoe)
+    ctx.ob("C04.R6j", "_apply_runtime_metadata:sanitised-iff-configured", ok_j,
+           "a statement with run-time source metadata is sanitised exactly on the 'check_printable_char is set' outcome", fn=am)
 
 
 def split_targs(t):
@@ -738,6 +835,19 @@ def hex_escape(ctx, facts):
                 text += x.get("str", "")
         ctx.ob("C04.R8b", "sanitize_non_printable_chars<%s>:escape-prefix" % (f.rec.get("targs") or ["?"])[0][:40], "\\x" in text,
                "the escape is introduced by backslash-x (literal text found in the function: %r)" % text[:12], fn=f)
+        # R8c: which bytes: the user's predicate decides both passes the same way — the 'something to escape' flag is raised on the 'not
+        # printable' outcome, a byte is copied on 'printable' and escaped on the other
+        g = f.g
+        pe = [(b, t) for (b, t, c) in branches_on_call(f, r"std::function<bool \(char\)>::operator\(\)$")]
+        flag = npos(f, [x for x in f.walk() if x["k"] == "BinaryOperator" and x["op"] == "=" and var_ref(x["lhs"]) is not None and const_val(x["rhs"]) == 1 and
+                        "bool" in ((f.var_decls().get(var_ref(x["lhs"])) or {}).get("ty") or "")])
+        esc = npos(f, [n for (k, n) in idx])
+        ok_c = len(pe) == 2 and bool(flag) and bool(esc) and \
+            not g.exists_path([g.entry_node], flag, avoid_edges=[(b, other(t)) for (b, t) in pe]) and \
+            not g.exists_path([g.entry_node], esc, avoid_edges=[(b, other(t)) for (b, t) in pe])
+        ctx.ob("C04.R8c", "sanitize_non_printable_chars<%s>:predicate-polarity" % (f.rec.get("targs") or ["?"])[0][:40], ok_c,
+               "the flag that starts the rewrite and the escape itself are reached only through the 'predicate says not printable' outcome "
+               "(%d predicate tests)" % len(pe), fn=f)
 
 
 def dynamic_level_byte(ctx, core):
@@ -852,3 +962,214 @@ def member_helpers(ctx, facts):
         ctx.ob("C04.R9c", "%s:align-up" % short(f.name)[:100], ok,
                "the placement address is (p + (alignment - 1)) & ~(alignment - 1): the first aligned address not below p, at most alignment - 1 "
                "bytes further, so the object ends inside the sizeof(T) + alignof(T) - 1 bytes reserved for it", fn=f)
+
+
+def inlined_vector(ctx, facts):
+    """R11: the per-thread size cache (InlinedVector<uint32_t, 12>) hands back the sizes it was given, in order — what the encode pass
+    relies on. The storage is a union discriminated by `_capacity == N`: R11a: in every member the inline arm is read or written only
+    on the 'capacity is N' outcome of a test that is still current (no write to _capacity in between) and the heap arm only on the other
+    (the one assignment that activates the heap arm is followed by the capacity update). R11b: operator[] and assign refuse an index
+    >= size() before they touch the storage; push_back stores at index _size and then increments it by one; clear() sets the size to 0.
+    R11c: growing copies elements 0 .. size-1 from the active arm, doubles the capacity, and frees only a previous heap block."""
+    for d in [f for f in facts.fns if f.config == "A" and short(f.cls or "") == "quill::detail::InlinedVector" and f.rec.get("dtor")][:1]:
+        dg = d.g
+        dd = [p for x in d.walk() if x["k"] == "CXXDeleteExpr" for p in (dg.positions(x) or [])]
+        de = []
+        for bid, b in dg.blocks.items():
+            c = dg.term_cond(bid)
+            nc = norm_cmp(c) if c is not None else None
+            if nc and nc[0] in ("==", "!=") and any(is_this_field(x, "_capacity") for x in walk(c)):
+                de.append((bid, "F" if nc[0] == "==" else "T"))      # label of 'on the heap'
+        ctx.ob("C04.R11c", "InlinedVector::~InlinedVector:frees-heap-block-only", bool(dd) and bool(de) and not dg.exists_path([dg.entry_node], dd, avoid_edges=de) and
+               all(not dg.exists_path([y for (y, l2) in dg.succ.get(tnode(dg, b), ()) if l2 == lab], [dg.exit_node], avoid_nodes=dd) for (b, lab) in de),
+               "the destructor frees the heap block exactly on the 'capacity != N' outcome", fn=d)
+    fns = [f for f in facts.fns if f.config == "A" and short(f.cls or "") == "quill::detail::InlinedVector" and not f.rec.get("ctor") and not f.rec.get("dtor")]
+    by = {}
+    for f in fns:
+        by.setdefault(f.base, []).append(f)
+    if not {"push_back", "operator[]", "clear"} <= set(by):
+        raise AnalysisBroken("InlinedVector members not found: %s" % sorted(by))
+
+    def arm_pos(f, arm):
+        return [p for x in f.walk() if x["k"] == "MemberExpr" and x.get("mname") == arm for p in (f.g.positions(x) or [])]
+
+    def is_inline_edges(f):
+        out = []
+        g = f.g
+        for bid, b in g.blocks.items():
+            c = g.term_cond(bid)
+            nc = norm_cmp(c) if c is not None else None
+            if nc and nc[0] in ("==", "!=") and any(is_this_field(x, "_capacity") for x in walk(c)) and \
+                    any((x["k"] == "DeclRefExpr" and x.get("dk") in ("NonTypeTemplateParm",)) or x["k"] == "SubstNonTypeTemplateParmExpr" for x in walk(c)):
+                out.append((bid, "T" if nc[0] == "==" else "F"))
+        return out
+    n = 0
+    for name, fl in sorted(by.items()):
+        f = fl[0]
+        g = f.g
+        inl, heap = arm_pos(f, "inline_buffer"), arm_pos(f, "heap_buffer")
+        if not inl and not heap:
+            continue
+        n += 1
+        e = is_inline_edges(f)
+        capw = npos(f, [x for x in f.walk() if x["k"] == "BinaryOperator" and x["op"] == "=" and is_this_field(x["lhs"], "_capacity")])
+        act_nodes = [x for x in f.walk() if x["k"] == "BinaryOperator" and x["op"] == "=" and isnode(strip(x["lhs"])) and strip(x["lhs"]).get("mname") == "heap_buffer"]
+        activate = npos(f, act_nodes)
+        heap_r = [p for x in f.walk() if x["k"] == "MemberExpr" and x.get("mname") == "heap_buffer" and not any(x is strip(a["lhs"]) for a in act_nodes)
+                  for p in (g.positions(x) or [])]
+        ok = bool(e) and not g.exists_path([g.entry_node], inl, avoid_edges=e) and \
+            not g.exists_path([g.entry_node], heap_r, avoid_edges=[(b, other(l)) for (b, l) in e])
+        # the test is still current: from a capacity write no arm access is reachable without passing a test again
+        tests = [tnode(g, b) for (b, l) in e]
+        ok = ok and not g.exists_path(capw, inl + heap_r, avoid_nodes=tests)
+        # activation is followed by the capacity update on every path
+        ok = ok and all(not g.exists_path([p], [g.exit_node] + tests, avoid_nodes=capw) for p in activate)
+        ctx.ob("C04.R11a", "InlinedVector::%s:arm-by-capacity" % name, ok,
+               "the inline arm is touched only on the 'capacity == N' outcome and the heap arm only on the other, with no capacity write "
+               "between the test and the access; the assignment that installs a heap block is followed by the capacity update", fn=f)
+    ctx.floor("C04.R11a", "InlinedVector members that touch the storage", n, 3)
+    for name in ("operator[]", "assign"):
+        for f in by.get(name, [])[:1]:
+            g = f.g
+            idx = f.rec["params"][0]["did"]
+            thr = npos(f, [x for x in f.walk() if x["k"] == "CXXThrowExpr"])
+            bad_e = []
+            for bid, b in g.blocks.items():
+                c = g.term_cond(bid)
+                cs = cmp_sides(c) if c is not None else None
+                if cs and is_this_field(strip(cs[2] if var_ref(strip(cs[1], casts=True)) == idx else cs[1], casts=True), "_size"):
+                    # idx < size  (ok outcome T)  |  size <= idx  (bad outcome T)
+                    if var_ref(strip(cs[1], casts=True)) == idx and cs[0] == "<":
+                        bad_e.append((bid, "F"))
+                    elif var_ref(strip(cs[2], casts=True)) == idx and cs[0] == "<=":
+                        bad_e.append((bid, "T"))
+            acc = arm_pos(f, "inline_buffer") + arm_pos(f, "heap_buffer")
+            ok = bool(bad_e) and bool(thr) and bool(acc) and \
+                all(not g.exists_path([y for (y, l2) in g.succ.get(tnode(g, b), ()) if l2 == lab], acc + [g.exit_node], avoid_nodes=thr) for (b, lab) in bad_e) and \
+                not g.exists_path([g.entry_node], acc, avoid_nodes=[tnode(g, b) for (b, lab) in bad_e])
+            ctx.ob("C04.R11b", "InlinedVector::%s:index-below-size" % name, ok,
+                   "an index >= size() ends in a throw before the storage is touched (a stale slot beyond size() is never handed out)", fn=f)
+    pb = by["push_back"][0]
+    g = pb.g
+    val = pb.rec["params"][0]["did"]
+    stores = [x for x in pb.walk() if x["k"] == "BinaryOperator" and x["op"] == "=" and isnode(strip(x["lhs"])) and strip(x["lhs"])["k"] == "ArraySubscriptExpr" and
+              var_ref(strip(x["rhs"], casts=True)) == val]
+    at_size = bool(stores) and all(is_this_field(strip(strip(x["lhs"]).get("rhs") or strip(x["lhs"]).get("idx") or (strip(x["lhs"]).get("c") or [None, None])[1], casts=True), "_size") for x in stores)
+    inc = [x for x in pb.walk() if (x["k"] == "UnaryOperator" and x.get("op") == "++" and is_this_field(x.get("sub"), "_size")) or
+           (x["k"] == "CompoundAssignOperator" and x["op"] == "+=" and is_this_field(x["lhs"], "_size") and const_val(x["rhs"]) == 1)]
+    sp, ip = npos(pb, stores), npos(pb, inc)
+    thr = npos(pb, [x for x in pb.walk() if x["k"] == "CXXThrowExpr"])
+    ok = at_size and len(inc) == 1 and not g.exists_path([g.entry_node], [g.exit_node], avoid_nodes=sp + thr) and \
+        not g.exists_path(sp, [g.exit_node], avoid_nodes=ip) and not g.exists_path(ip, sp)
+    ctx.ob("C04.R11b", "InlinedVector::push_back:append-at-size", ok,
+           "the value is stored at index _size of the active arm on every path and _size is then incremented by one", fn=pb)
+    for af in by.get("assign", [])[:1]:
+        ag = af.g
+        ai, av = af.rec["params"][0]["did"], af.rec["params"][1]["did"]
+        ast = [x for x in af.walk() if x["k"] == "BinaryOperator" and x["op"] == "=" and isnode(strip(x["lhs"])) and strip(x["lhs"])["k"] == "ArraySubscriptExpr" and
+               var_ref(strip(x["rhs"], casts=True)) == av and
+               var_ref(strip(strip(x["lhs"]).get("rhs") or strip(x["lhs"]).get("idx") or (strip(x["lhs"]).get("c") or [None, None])[1], casts=True)) == ai]
+        athr = npos(af, [x for x in af.walk() if x["k"] == "CXXThrowExpr"])
+        ctx.ob("C04.R11b", "InlinedVector::assign:stores-at-index", bool(ast) and not ag.exists_path([ag.entry_node], [ag.exit_node], avoid_nodes=npos(af, ast) + athr),
+               "the value is stored at the given index of the active arm on every path that does not throw (a size that a nested codec "
+               "patches afterwards reaches the encode pass)", fn=af)
+    cl = by["clear"][0]
+    z = [x for x in cl.walk() if x["k"] == "BinaryOperator" and x["op"] == "=" and is_this_field(x["lhs"], "_size") and const_val(x["rhs"]) == 0]
+    ctx.ob("C04.R11b", "InlinedVector::clear:size-zero", bool(z) and not cl.g.exists_path([cl.g.entry_node], [cl.g.exit_node], avoid_nodes=npos(cl, z)),
+           "clear() sets the size to 0", fn=cl)
+    # growth
+    full = []
+    for bid, b in g.blocks.items():
+        c = g.term_cond(bid)
+        nc = norm_cmp(c) if c is not None else None
+        if nc and nc[0] in ("==", "!=") and any(is_this_field(x, "_size") for x in walk(c)) and any(is_this_field(x, "_capacity") for x in walk(c)):
+            full.append((bid, "T" if nc[0] == "==" else "F"))
+    news = [x for x in pb.walk() if x["k"] == "CXXNewExpr"]
+    dels = [x for x in pb.walk() if x["k"] == "CXXDeleteExpr"]
+    newcap = [v for v, i in pb.var_inits().items() if isnode(i) and any(x["k"] == "BinaryOperator" and x["op"] == "*" and const_val(x["rhs"]) == 2 and is_this_field(strip(x["lhs"], casts=True), "_capacity") for x in walk(i))]
+    capw = [x for x in pb.walk() if x["k"] == "BinaryOperator" and x["op"] == "=" and is_this_field(x["lhs"], "_capacity")]
+    loops = [x for x in pb.walk() if x["k"] == "ForStmt"]
+    copies_ok = len(loops) == 2
+    for lp in loops:
+        iv = None
+        for d in walk(lp.get("init")) if lp.get("init") is not None else []:
+            if d.get("k") == "Var" and const_val(d.get("init")) == 0:
+                iv = d["did"]
+        cs = cmp_sides(lp.get("cond")) if lp.get("cond") is not None else None
+        copies_ok = copies_ok and iv is not None and cs is not None and cs[0] == "<" and var_ref(strip(cs[1], casts=True)) == iv and is_this_field(strip(cs[2], casts=True), "_size")
+        # the body copies element i of the active arm to element i of the new block
+        cp = [x for x in walk(lp.get("body")) if x["k"] == "BinaryOperator" and x["op"] == "=" and
+              isnode(strip(x["lhs"])) and strip(x["lhs"])["k"] == "ArraySubscriptExpr" and isnode(strip(x["rhs"], casts=True)) and strip(x["rhs"], casts=True)["k"] == "ArraySubscriptExpr"]
+
+        def sub_idx(e):
+            e = strip(e, casts=True)
+            return e.get("rhs") or e.get("idx") or (e.get("c") or [None, None])[1]
+
+        def sub_base(e):
+            e = strip(e, casts=True)
+            return e.get("lhs") or e.get("base") or (e.get("c") or [None])[0]
+        copies_ok = copies_ok and len(cp) == 1 and var_ref(strip(sub_idx(cp[0]["lhs"]), casts=True)) == iv and var_ref(strip(sub_idx(cp[0]["rhs"]), casts=True)) == iv and \
+            var_ref(strip(sub_base(cp[0]["lhs"]), casts=True)) is not None and \
+            any(y["k"] == "MemberExpr" and y.get("mname") in ("inline_buffer", "heap_buffer") for y in walk(sub_base(cp[0]["rhs"]))) and \
+            not [y for y in walk(lp.get("body")) if y["k"] in ("BreakStmt", "ContinueStmt", "ReturnStmt")]
+    e = is_inline_edges(pb)
+    dp = npos(pb, dels)
+    del_ok = len(dels) == 1 and bool(e) and not g.exists_path([g.entry_node], dp, avoid_edges=[(b, other(l)) for (b, l) in e])
+    grow_ok = bool(full) and len(news) == 1 and len(newcap) == 1 and len(capw) == 1 and var_ref(strip(capw[0]["rhs"], casts=True)) == newcap[0] and \
+        not g.exists_path([g.entry_node], npos(pb, news), avoid_edges=full)
+    nd = [v for v, i in pb.var_inits().items() if isnode(i) and any(x is news[0] for x in walk(i))] if news else []
+    inst = [x for x in pb.walk() if x["k"] == "BinaryOperator" and x["op"] == "=" and isnode(strip(x["lhs"])) and strip(x["lhs"]).get("mname") == "heap_buffer" and
+            var_ref(strip(x["rhs"], casts=True)) in nd]
+    grow_ok = grow_ok and len(inst) == 1 and not g.exists_path(npos(pb, news), [g.exit_node], avoid_nodes=npos(pb, inst) + thr) and \
+        not g.exists_path(npos(pb, inst), npos(pb, loops))
+    ctx.ob("C04.R11c", "InlinedVector::push_back:growth", grow_ok and copies_ok and del_ok,
+           "a new block of twice the capacity is allocated exactly on 'size == capacity' (%s), elements 0 .. size-1 are copied from the active "
+           "arm (%s), only a previous heap block is freed (%s) and the capacity becomes the new one" % (grow_ok, copies_ok, del_ok), fn=pb)
+
+
+def c_string_terminators(ctx, facts):
+    """R12: what the decoder measures with strnlen was terminated by the encoder. A C string is copied without its terminator (len - 1
+    bytes) and the terminator written at buffer[len - 1]; a char array in which no terminator was found within its N elements (the
+    'len > N' outcome) is copied whole and terminated at buffer[N] — both before the cursor moves on by len. (The layout comparison of
+    R1 counts bytes; which byte is the terminator is invisible to it.)"""
+    n = 0
+    for f in facts.fns:
+        if f.config != "A" or f.base != "encode" or not re.match(r"^quill::Codec<(const char \*|char \*|(const )?char ?\[\d+\])>::", f.name):
+            continue
+        g = f.g
+        buf = f.rec["params"][0]["did"]
+        is_arr = "[" in f.name.split("Codec<")[1].split(">::")[0]
+        adv = npos(f, [x for x in f.walk() if x["k"] == "CompoundAssignOperator" and x["op"] == "+=" and var_ref(strip(x["lhs"], casts=True)) == buf])
+        zs = []
+        for x in f.walk():
+            if x["k"] == "BinaryOperator" and x["op"] == "=" and isnode(strip(x["lhs"])) and strip(x["lhs"])["k"] == "ArraySubscriptExpr":
+                sub = strip(x["lhs"])
+                base = sub.get("lhs") or sub.get("base") or (sub.get("c") or [None])[0]
+                idx = sub.get("rhs") or sub.get("idx") or (sub.get("c") or [None, None])[1]
+                if var_ref(strip(base, casts=True)) == buf and const_val(x["rhs"]) == 0 or \
+                        (var_ref(strip(base, casts=True)) == buf and any(const_val(y) == 0 for y in walk(x["rhs"]))):
+                    zs.append((x, idx))
+        n += 1
+        if not is_arr:
+            ok = len(zs) == 1 and isnode(strip(zs[0][1], casts=True)) and strip(zs[0][1], casts=True)["k"] == "BinaryOperator" and strip(zs[0][1], casts=True)["op"] == "-" and \
+                const_val(strip(zs[0][1], casts=True)["rhs"]) == 1
+            zp = npos(f, [z for (z, i) in zs])
+            ok = ok and bool(adv) and not g.exists_path([g.entry_node], adv, avoid_nodes=zp)
+            ctx.ob("C04.R12", "%s:terminator-at-len-1" % f.name.split("::encode")[0][:60], ok,
+                   "the encoder writes the terminator at buffer[len - 1] on every path before the cursor advances", fn=f)
+        else:
+            N = int(re.search(r"\[(\d+)\]", f.name).group(1))
+            big = []
+            for bid, b in g.blocks.items():
+                c = g.term_cond(bid)
+                cs = cmp_sides(c) if c is not None else None
+                if cs and ((const_val(cs[1]) == N and cs[0] == "<") or (const_val(cs[1]) == N + 1 and cs[0] == "<=")):
+                    big.append((bid, "T"))       # N < len : no terminator inside the array
+                elif cs and ((const_val(cs[2]) == N and cs[0] == "<=") or (const_val(cs[2]) == N + 1 and cs[0] == "<")):
+                    big.append((bid, "F"))
+            zp = npos(f, [z for (z, i) in zs if const_val(i) == N])
+            ok = bool(big) and bool(zp) and bool(adv) and \
+                all(not g.exists_path([y for (y, l2) in g.succ.get(tnode(g, b), ()) if l2 == lab], adv, avoid_nodes=zp) for (b, lab) in big)
+            ctx.ob("C04.R12", "%s:unterminated-array-gets-terminator" % f.name.split("::encode")[0][:60], ok,
+                   "on the 'no terminator within the %d elements' outcome the encoder writes one at buffer[%d] before the cursor advances" % (N, N), fn=f)
+    ctx.floor("C04.R12", "C-string / char-array encoders", n, 2)
